@@ -214,6 +214,44 @@ def rule_child_kind(ctx, rep, facts):
             rep.find(rule, cls.short, 'children-kind', '%s: children are %s on some constructor path; documented kind is %s'
                      % (cls.name, kinds, want), loc(model.unit_of(cls), cls.node))
     rep.floor(rule, n, 28)
+    # a tree, not a DAG: no token object is listed twice among the children of one token
+    for cls, insts in sorted(facts.instances.items(), key=lambda kv: kv[0].short):
+        dup = None
+        for i in insts:
+            ch = i.attrs.get('_children', MISSING)
+            if isinstance(ch, (list, tuple)):
+                objs = [x for x in ch if isinstance(x, Obj)]
+                if len({id(x) for x in objs}) != len(objs):
+                    dup = i
+        rep.obligation(rule, dup is None, {'class': cls.name, 'children listed once each': dup is None})
+        if dup is not None:
+            rep.find(rule, cls.short, 'child-listed-twice', '%s: a constructor path lists the same token object more than once among its '
+                     'children: the parent links form a DAG and a traversal yields that token repeatedly' % cls.name,
+                     loc(model.unit_of(cls), cls.node))
+    # a row shorter than the delimiter row is padded: one fresh cell per missing column
+    row = model.cls('block_token.TableRow')
+    rep.instance(rule)
+    it = Interp(model, loop_bound=6)
+    it.reset_run(Oracle())
+    from ..domains import install_rx_hooks
+    install_rx_hooks(it, [])
+    it.intrinsics['rx.split'] = lambda interp, a, k: [AbsStr(label='cell0')]
+    it.intrinsics['rx.sub'] = lambda interp, a, k: a[2] if len(a) > 2 else Unknown('sub')
+    cellc = model.cls('block_token.TableCell')
+    it.func_hooks['construct:' + cellc.qualname] = lambda interp, cls_, args, kwargs: Obj(cellc, {'content': args[0] if args else None})
+    try:
+        r_ = it.construct(row, [AbsStr(label='row'), [None, None, None, 1], 7], {})
+        kids = r_.attrs.get('_children') if isinstance(r_, Obj) else None
+        objs = [x for x in (kids or []) if isinstance(x, Obj)]
+        ok = isinstance(kids, (list, tuple)) and len(kids) == 4 and len(objs) == 4 and len({id(x) for x in objs}) == 4
+        detail = {'cells': len(kids) if isinstance(kids, (list, tuple)) else repr(kids), 'distinct': len({id(x) for x in objs})}
+    except Raised as r:
+        ok, detail = False, {'raises': r.exc.kind}
+    rep.obligation(rule, ok, {'TableRow with 1 cell under 4 alignments': detail})
+    if not ok:
+        rep.find(rule, row.short, 'padding-cells', 'a table row with one cell under four column alignments gets %s: every column '
+                 'needs a cell token of its own (a shared padding cell is listed twice and has one parent)' % (detail,),
+                 loc(model.unit_of(row), row.node), witness='| a | b | c |\n| --- | --- | --- |\n| 1 |')
     # Footnote yields no token at all
     fn = model.cls('block_token.Footnote')
     ok = fn not in facts.instances
@@ -345,6 +383,18 @@ def rule_repr_attrs(ctx, rep, facts):
     if not ok:
         rep.find(rule, ga.short, 'shape', 'get_ast does not produce {type, content/footnotes, repr attributes, header, children} '
                  'with recursion over exactly header and children: %r' % (node,), loc(model.unit_of(ga), ga.node))
+    # a container that happens to be empty still has its (empty) children list and its header in the tree
+    for empty in ([], ()):
+        hdr2 = Obj(tokc, {'_n': 4})
+        o2 = Obj(tokc, {'_children': empty, 'header': hdr2, 'column_align': [None], 'line_number': 1})
+        del rec[:]
+        node = it.call_function(ga, [o2], {})
+        ok = isinstance(node, dict) and node.get('children') == [] and node.get('header') == {'rec': id(hdr2)} and rec == [hdr2]
+        rep.obligation(rule, ok, {'get_ast(empty container)': sorted(node) if isinstance(node, dict) else repr(node)})
+        if not ok:
+            rep.find(rule, ga.short, 'empty-container', 'get_ast of a token whose children list is empty (%r) yields %r: the empty '
+                     'children list or the header row is missing from the tree' % (empty, node), loc(model.unit_of(ga), ga.node),
+                     witness='| A | B |\n| --- | --- |')
     leaf = Obj(model.cls('span_token.RawText'), {'content': 'x'})
     node = it.call_function(ga, [leaf], {})
     ok = node == {'type': 'RawText', 'content': 'x'}
